@@ -7,12 +7,14 @@ S=$(realpath "$1"); W=/tmp/vs
 cd $W || exit 2
 git checkout -q -- . ; git clean -fdq -e _build
 cmake --build _build -- -j8 -k 0 >/dev/null 2>&1
-echo "== demo on unchanged tree"; (cd $S && timeout 600 bash ./run-demo.sh $W >/tmp/vs-demo0.log 2>&1); r0=$?; echo "rc=$r0"
+echo "== demo on unchanged tree"; (cd $S && timeout 600 bash ./run-demo.sh $W >/tmp/vs-demo0.log 2>&1); r0=$?
+D=$W; if [ $r0 -eq 2 ]; then D=$W/_build; (cd $S && timeout 600 bash ./run-demo.sh $D >/tmp/vs-demo0.log 2>&1); r0=$?; fi   # some demos take the build directory
+echo "rc=$r0"
 git apply "$S/patch.diff" || { echo "PATCH DOES NOT APPLY"; exit 3; }
 echo "== build with patch"; cmake --build _build -- -j8 -k 0 2>&1 | grep -E "error|FAILED" | grep -v "libzwerg.so\|dwgrep$\|collect2\|libzwerg.map" | head -5
 echo "== ctest with patch"; ctest --test-dir _build -j8 --timeout 900 2>&1 | grep -E "tests passed|Failed|\*\*\*" | head
 for t in test-dw test-op test-value-cst test-builtin-cmp test-coverage; do (cd _build/libzwerg && ./$t 2>&1 | grep -E "^\[  (PASSED|FAILED)" | tr '\n' ' '); done; echo
-echo "== demo on changed tree"; (cd $S && timeout 600 bash ./run-demo.sh $W >/tmp/vs-demo1.log 2>&1); r1=$?; echo "rc=$r1"; tail -3 /tmp/vs-demo1.log
+echo "== demo on changed tree"; (cd $S && timeout 600 bash ./run-demo.sh $D >/tmp/vs-demo1.log 2>&1); r1=$?; echo "rc=$r1"; tail -3 /tmp/vs-demo1.log
 git checkout -q -- . ; git clean -fdq -e _build
 cmake --build _build -- -j8 -k 0 >/dev/null 2>&1
 if [ $r0 -eq 0 ] && [ $r1 -ne 0 ]; then echo "SEED-OK"; else echo "SEED-BAD r0=$r0 r1=$r1"; fi
